@@ -87,7 +87,7 @@ var c24Profiles = []c24Profile{
 	{name: "sparse", addrs: between(5, 100), pubs: between(1, 20), perBlock: between(0, 2)},
 	{name: "cross-255", addrs: between(250, 270), pubs: between(250, 270), perBlock: between(3, 12)},
 	// heavy: the address table crosses 65536 entries
-	{name: "addr-cross-65535", addrs: between(66000, 70000), pubs: between(10, 120), perBlock: between(800, 1100), heavy: true},
+	{name: "addr-cross-65535", addrs: between(66000, 70000), pubs: between(10, 120), perBlock: between(800, 1100), heavy: true, kinds: []string{"reward", "slash", "unbond", "unbond-nilpub", "unlock", "kick", "move", "order", "jail"}},
 	// heavy: the public key table reaches/crosses 65535 entries
 	{name: "pub-cross-65535", addrs: between(500, 5000), pubs: between(66000, 70000), perBlock: between(800, 1100), heavy: true, kinds: []string{"reward", "slash", "jail", "unbond", "unbond-nilpub", "kick", "move", "move", "move", "remove"}},
 }
@@ -408,7 +408,14 @@ func c24Run(ctx *WorkCtx, idx int) {
 		ht = uint32(10000000 + r.Intn(1000000))
 	}
 	restarts := 0
-	for b := 0; b < nHeights && c.nviol == 0; b++ {
+	// heavy profiles go on until their pool is used up (the id table has then crossed 65535), at most 2x as long
+	more := func(b int) bool {
+		if b < nHeights {
+			return true
+		}
+		return prof.heavy && b < 2*nHeights && ((prof.name == "addr-cross-65535" && g.addr.used < g.addr.n) || (prof.name == "pub-cross-65535" && g.pub.used < g.pub.n))
+	}
+	for b := 0; more(b) && c.nviol == 0; b++ {
 		ht++
 		if r.Intn(6) == 0 {
 			ht += uint32(1 + r.Intn(3)) // heights nobody commits
@@ -453,7 +460,7 @@ func c24Run(ctx *WorkCtx, idx int) {
 				c.verify(writer, c.heights[r.Intn(len(c.heights))], "writer-"+writerKind)
 			}
 		}
-		if r.Float64() < restartP && b < nHeights-1 {
+		if r.Float64() < restartP && more(b+1) {
 			restarts++
 			kind := "new-object"
 			if c.backend == "goleveldb" && r.Intn(2) == 0 {
@@ -518,9 +525,18 @@ func c24Run(ctx *WorkCtx, idx int) {
 func init() {
 	Register(&CheckDef{
 		ID: "C24", Level: "exploration",
-		Rule: "generated histories of event batches (12 event types; addresses/public keys drawn from pools of 1..70000 distinct values walked through so that the store's id tables cross 255/65535; nil public keys on unbonds; empty commits and uncommitted gaps) committed at increasing heights on the real events store over memdb or goleveldb with restarts (new store object / close+reopen, reading first or committing first); one evaluation = one LoadEvents(height) compared element-wise (JSON) with what was added; distinct = event kind x address-table bucket x pubkey-table bucket x reader/restart kind",
+		Rule:        "generated histories of event batches (12 event types; addresses/public keys drawn from pools of 1..70000 distinct values walked through so that the store's id tables cross 255/65535; nil public keys on unbonds; empty commits and uncommitted gaps) committed at increasing heights on the real events store over memdb or goleveldb with restarts (new store object / close+reopen, reading first or committing first); one evaluation = one LoadEvents(height) compared element-wise (JSON) with what was added; distinct = event kind x address-table bucket x pubkey-table bucket x reader/restart kind",
 		Assumptions: []string{"amounts are canonical non-negative decimal strings, coin and order ids fit uint32, roles are the four roles the node emits (what the node itself produces)", "one store object writes at a time (as in the node); readers are the writer or store objects created after the last write"},
-		Quick: 56, Thorough: 3360, MinEval: 3000, MinDistinct: 60,
+		Quick:       56, Thorough: 3360, MinEval: 3000, MinDistinct: 60,
 		Run: c24Run,
+		Post: func(total *WorkerResult) {
+			// the run must have pushed both id tables over their 16-bit boundary, otherwise say so
+			if total.Counters["cases_address_table>65536"] == 0 {
+				total.Inconcl = append(total.Inconcl, "no history used more than 65536 distinct addresses: the address id table was not taken over the 16-bit boundary")
+			}
+			if total.Counters["cases_pubkey_table>=65535"] == 0 {
+				total.Inconcl = append(total.Inconcl, "no history used 65535 distinct public keys")
+			}
+		},
 	})
 }
